@@ -153,7 +153,13 @@ public:
 
   QUILL_ATTRIBUTE_HOT void commit_read() noexcept
   {
-    if (static_cast<integer_type>(_reader_pos - _atomic_reader_pos.load(std::memory_order_relaxed)) >= _bytes_per_batch)
+    integer_type const published_reader_pos = _atomic_reader_pos.load(std::memory_order_relaxed);
+
+    // Publish in batches, but always publish when the reader has caught up with the writer:
+    // otherwise an idle reader never makes the consumed bytes available and a producer that
+    // needs more than capacity - unpublished bytes waits (or drops) for ever on an empty queue
+    if ((static_cast<integer_type>(_reader_pos - published_reader_pos) >= _bytes_per_batch) ||
+        ((_reader_pos == _writer_pos_cache) && (_reader_pos != published_reader_pos)))
     {
       _atomic_reader_pos.store(_reader_pos, std::memory_order_release);
 
